@@ -121,6 +121,104 @@ class AugExpand(ast.NodeTransformer):
         return n
 
 
+def _terminates(body):
+    return bool(body) and isinstance(body[-1], (ast.Return, ast.Raise, ast.Continue, ast.Break))
+
+
+class SplitAnd(ast.NodeTransformer):
+    """`if a and b: BODY` (no else)  ->  `if a:\n    if b: BODY`"""
+    def visit_If(self, n):
+        self.generic_visit(n)
+        if not n.orelse and isinstance(n.test, ast.BoolOp) and isinstance(n.test.op, ast.And) and len(n.test.values) == 2:
+            inner = ast.copy_location(ast.If(test=n.test.values[1], body=n.body, orelse=[]), n)
+            return ast.copy_location(ast.If(test=n.test.values[0], body=[inner], orelse=[]), n)
+        return n
+
+
+class _Blocks(ast.NodeTransformer):
+    """apply self.block(list[stmt]) -> list[stmt] to every statement list"""
+    def generic_visit(self, node):
+        super().generic_visit(node)
+        for fld in ("body", "orelse", "finalbody"):
+            b = getattr(node, fld, None)
+            if isinstance(b, list) and b and isinstance(b[0], ast.stmt):
+                setattr(node, fld, self.block(b))
+        return node
+
+
+class ElseWrap(_Blocks):
+    """`if c: ...; return` followed by REST  ->  `if c: ...; return` / `else: REST`  (first such if per block)"""
+    def block(self, b):
+        for i, st in enumerate(b[:-1]):
+            if isinstance(st, ast.If) and not st.orelse and _terminates(st.body) and not any(isinstance(x, (ast.FunctionDef, ast.ClassDef, ast.Import, ast.ImportFrom)) for x in b[i + 1:]):
+                st.orelse = b[i + 1:]
+                return b[:i + 1]
+        return b
+
+
+class ElseUnwrap(_Blocks):
+    """`if c: ...; return` / `else: REST`  ->  `if c: ...; return` followed by REST"""
+    def block(self, b):
+        out = []
+        for st in b:
+            if isinstance(st, ast.If) and st.orelse and _terminates(st.body) and not (len(st.orelse) == 1 and isinstance(st.orelse[0], ast.If)):
+                rest, st.orelse = st.orelse, []
+                out.append(st)
+                out.extend(rest)
+            else:
+                out.append(st)
+        return out
+
+
+class RetTemp(ast.NodeTransformer):
+    """`return EXPR` -> `result__ = EXPR; return result__` for non-trivial EXPR (not inside lambdas; generators included)"""
+    def visit_FunctionDef(self, fn):
+        self.generic_visit(fn)
+        class R(_Blocks):
+            def block(self_, b):
+                out = []
+                for st in b:
+                    if isinstance(st, ast.Return) and st.value is not None and not isinstance(st.value, (ast.Constant, ast.Name)):
+                        out.append(ast.copy_location(ast.Assign(targets=[ast.Name(id="result__", ctx=ast.Store())], value=st.value, lineno=st.lineno), st))
+                        out.append(ast.copy_location(ast.Return(value=ast.Name(id="result__", ctx=ast.Load())), st))
+                    else:
+                        out.append(st)
+                return out
+            def visit_FunctionDef(self_, inner):
+                return inner if inner is not fn else _Blocks.generic_visit(self_, inner)
+            visit_AsyncFunctionDef = visit_FunctionDef
+        R().visit(fn)
+        return fn
+
+
+class SwapMinMax(ast.NodeTransformer):
+    def visit_Call(self, n):
+        self.generic_visit(n)
+        if isinstance(n.func, ast.Name) and n.func.id in ("max", "min") and len(n.args) == 2 and not n.keywords and not any(isinstance(a, ast.Starred) for a in n.args) \
+                and not any(isinstance(x, (ast.Call, ast.Yield, ast.Await, ast.NamedExpr)) for a in n.args for x in ast.walk(a)):
+            n.args = [n.args[1], n.args[0]]
+        return n
+
+
+class SwapEarlyReturn(_Blocks):
+    """`if c: A(terminates)` followed by REST(terminates) at the end of a block  ->  `if not c: REST` followed by A"""
+    def block(self, b):
+        for i, st in enumerate(b[:-1]):
+            rest = b[i + 1:]
+            if isinstance(st, ast.If) and not st.orelse and _terminates(st.body) and _terminates(rest) and len(rest) <= 6 \
+                    and not any(isinstance(x, (ast.FunctionDef, ast.ClassDef, ast.Import, ast.ImportFrom)) for x in rest + st.body):
+                t = st.test
+                if isinstance(t, ast.UnaryOp) and isinstance(t.op, ast.Not):
+                    neg = t.operand
+                elif isinstance(t, ast.Compare) and len(t.ops) == 1 and type(t.ops[0]) in InvertIf.NEG and type(t.ops[0]) in (ast.In, ast.NotIn, ast.Is, ast.IsNot, ast.Eq, ast.NotEq):
+                    neg = ast.Compare(left=t.left, ops=[InvertIf.NEG[type(t.ops[0])]()], comparators=t.comparators)
+                else:
+                    neg = ast.UnaryOp(op=ast.Not(), operand=t)
+                new_if = ast.copy_location(ast.If(test=neg, body=rest, orelse=[]), st)
+                return b[:i] + [new_if] + st.body
+        return b
+
+
 def main():
     mode, dest = sys.argv[1], sys.argv[2]
     shutil.rmtree(f"{dest}/happysimulator", ignore_errors=True)
@@ -142,6 +240,20 @@ def main():
                 t = AugExpand().visit(t)
             elif mode == "invert-if":
                 t = InvertIf().visit(t)
+            elif mode == "split-and":
+                t = SplitAnd().visit(t)
+            elif mode == "else-wrap":
+                t = ElseWrap().visit(t)
+            elif mode == "else-unwrap":
+                t = ElseUnwrap().visit(t)
+            elif mode == "ret-temp":
+                t = RetTemp().visit(t)
+            elif mode == "swap-minmax":
+                t = SwapMinMax().visit(t)
+            elif mode == "swap-early-return":
+                t = SwapEarlyReturn().visit(t)
+            elif mode == "all2":
+                t = RetTemp().visit(SwapMinMax().visit(ElseWrap().visit(SplitAnd().visit(t))))
             elif mode == "all":
                 t = InvertIf().visit(AugExpand().visit(Flip().visit(TopFuncs().visit(t))))
             ast.fix_missing_locations(t)
